@@ -35,58 +35,147 @@ def show_v(v):
 
 
 def rule_trust(ctx):
+    """trust-on-first-use, by abstract execution of the identity store on an opaque database connection.  A history
+    is played on one store object: saveIdentity(R1, K1) - the INSERT's bound values are captured - then
+    isTrustedIdentity is asked with the database answering from that row:
+      (R1, K1) -> True      the pinned key is recognised (stored and compared in the same serialisation)
+      (R1, K2) -> False     a different key for a pinned recipient is refused
+      (R2, K1) with no row -> True     first contact
+    and every lookup is a SELECT on the pin table keyed by the recipient that was asked about.  Serialisations are
+    opaque but distinguishable: serialize() of the public key of K is SER(PUB(K)), of K itself SER(K)."""
+    from ..absint import Interp, _Raise, NeedAtom, Budget, DomainGrew, C_NONE, enumerate_cells
+    from .. import sql
     repo = ctx.repo
     cls = repo.cls(IKS, "LiteIdentityKeyStore")
     fn = repo.method(IKS, "LiteIdentityKeyStore", "isTrustedIdentity")
-    w = where(IKS, "LiteIdentityKeyStore.isTrustedIdentity", fn.lineno)
-    ps = params_of(fn)
-    g = CFG(fn)
-    pe = PathEval(fn, Evaluator(repo, cls.module, cls))
-    res = [r for r in all_path_results(g, pe) if r["terminal"] == "exit"]
-    seen_true = seen_cmp = False
-    for r in res:
-        ret = r["ret"]
-        # the query
-        ex = [e for e in r["events"] if e["func"] == "execute"]
-        okq = False
-        if len(ex) == 1 and len(ex[0]["args"]) == 2 and ex[0]["args"][0][0] == "const":
-            from .. import sql
-            st = sql.parse(ex[0]["args"][0][1])
-            bound = ex[0]["args"][1]
-            okq = st.verb == "SELECT" and st.table == "identities" and st.columns == ["public_key"] and [c for (c, o, v) in st.where] == ["recipient_id"] \
-                and bound == ("tuple", ("param", ps[0]))
-        if not okq:
-            ctx.violate("C17.trust", w, fn, "the stored key must be selected as public_key of the row whose recipient_id is the recipient parameter")
-            return
-        fetch = [e for e in r["events"] if e["func"] == "fetchone"]
-        if ret == ("const", True):
-            seen_true = True
-            # reached only when no row exists
-            conds = [(t, k) for (n, t, k) in r["conds"]]
-            ok = any(t[0] == "un" and t[1] == "Not" and fetch and t[2] == fetch[0]["result"] and k == "true" for (t, k) in conds)
-            ctx.check("C17.trust", ok, w, "return True", "True must be returned only when no row exists for the recipient", "True only for an unknown recipient")
-        elif isinstance(ret, tuple) and ret[0] == "cmp" and ret[1] == "Eq":
-            seen_cmp = True
-            a, b = ret[2], ret[3]
-            stored = ("sub", fetch[0]["result"], ("const", 0)) if fetch else None
-            presented = None
-            for x, y in ((a, b), (b, a)):
-                if x == stored:
-                    presented = y
-            okp = presented is not None and presented[0] == "call" and presented[1] == "serialize" and presented[2][0] == "call" and presented[2][1] == "getPublicKey" \
-                and presented[2][2] == ("param", ps[1])
-            ctx.check("C17.trust", okp, w, "return " + show(ret), "the result must compare the stored public_key of this recipient with the serialised key that was presented; found %s" % show(ret), "stored key == presented key")
-        else:
-            ctx.violate("C17.trust", w, "return " + show(ret), "isTrustedIdentity returns something other than `no row` or the key comparison: a changed key could be accepted")
-    ctx.check("C17.trust", seen_true and seen_cmp, w, "both outcomes present", "expected an unknown-recipient path and a comparison path", "unknown -> True, known -> comparison")
-    # saveIdentity stores the same serialisation it later compares against
     sv = repo.method(IKS, "LiteIdentityKeyStore", "saveIdentity")
-    sps = params_of(sv)
-    ser = [unparse(n.value) for n in ast.walk(sv) if isinstance(n, ast.Assign) and isinstance(n.value, ast.Call) and "serialize" in unparse(n.value)]
-    ser2 = [unparse(n.value) for n in ast.walk(fn) if isinstance(n, ast.Assign) and isinstance(n.value, ast.Call) and "serialize" in unparse(n.value)]
-    norm = lambda s, p: s.replace(p, "K")
-    ctx.check("C17.trust", len(ser) == 1 and len(ser2) == 1 and norm(ser[0], sps[1]) == norm(ser2[0], ps[1]), where(IKS, "LiteIdentityKeyStore.saveIdentity", sv.lineno),
-              "stored form %s / compared form %s" % (ser, ser2), "the key is stored in one serialisation and compared in another", "same serialisation stored and compared")
+    w = where(IKS, "LiteIdentityKeyStore.isTrustedIdentity", getattr(fn, "lineno", None))
+    ws = where(IKS, "LiteIdentityKeyStore.saveIdentity", getattr(sv, "lineno", None))
+    if fn is None or sv is None:
+        ctx.undecided("C17.trust", w, "identity store", "isTrustedIdentity / saveIdentity vanished")
+        return
+
+    def label(v):
+        return v[1] if isinstance(v, tuple) and v[0] == "ext" else None
+
+    def run(cell, domains):
+        script = {"row": None}
+
+        def wrap(kind):
+            def h(itp, recv, a, k, env, d, e):
+                r = itp.force(recv) if hasattr(itp, "force") else recv
+                inner = label(r)
+                if inner is None and isinstance(r, tuple) and r[0] == "fn":
+                    inner = None
+                if inner is None:
+                    return None
+                return ("ext", "%s(%s)" % (kind, inner), [])
+            return h
+
+        def fetchone(itp, recv, a, k, env, d, e):
+            return script["row"] if script["row"] is not None else C_NONE
+
+        def fetchall(itp, recv, a, k, env, d, e):
+            return ("list", [script["row"]]) if script["row"] is not None else ("list", [])
+        hooks = {"ext:*.getPublicKey": wrap("PUB"), "ext:*.serialize": wrap("SER"), "anymethod:getPublicKey": wrap("PUB"), "anymethod:serialize": wrap("SER"),
+                 "ext:*.fetchone": fetchone, "anymethod:fetchone": fetchone, "ext:*.fetchall": fetchall, "anymethod:fetchall": fetchall}
+        it = Interp(repo, cell, domains, hooks=hooks)
+        db = ("ext", "db", [])
+        store = it.construct(cls, [db], {}, {"@module": cls.module, "@owner": None}, 0, None)
+        R1, R2, K1, K2 = ("ext", "R1", []), ("ext", "R2", []), ("ext", "K1", []), ("ext", "K2", [])
+        out = {"insert": None, "asks": []}
+
+        def executes(n0):
+            ex = []
+            for e in it.effects[n0:]:
+                if e[0] == "CALL" and e[1].split(".")[-1] in ("execute", "executemany") and e[2] and e[2][0][0] == "c" and isinstance(e[2][0][1], str):
+                    ps_ = it.iterate(e[2][1]) if len(e[2]) > 1 else []
+                    ex.append((sql.parse(e[2][0][1]), ps_))
+            return ex
+        n0 = len(it.effects)
+        try:
+            it.call_function(sv, cls, store, [R1, K1], {}, depth=0)
+        except _Raise as r:
+            out["insert"] = ("raise", r.text)
+            return out, it
+        ins = [(st, ps_) for st, ps_ in executes(n0) if st.verb == "INSERT"]
+        if len(ins) != 1 or ins[0][1] is None or len(ins[0][0].columns) != len(ins[0][1]):
+            out["insert"] = ("shape", [st.text for st, _p in executes(n0)])
+            return out, it
+        row = dict(zip(ins[0][0].columns, ins[0][1]))
+        out["insert"] = ("ok", ins[0][0].table, row)
+        for (who, key, has_row, want) in ((R1, K1, True, True), (R1, K2, True, False), (R2, K1, False, True)):
+            n0 = len(it.effects)
+            res = {"who": label(who), "key": label(key), "row": has_row, "want": want, "ret": None, "raised": None, "select": None}
+            # the database answers the SELECT that is about to be issued: column order as asked for
+            state = {"st": None}
+
+            def answer():
+                sel = [x for x in executes(n0) if x[0].verb == "SELECT"]
+                if not sel:
+                    return None
+                st_, ps_ = sel[-1]
+                res["select"] = (st_.table, list(st_.columns), [c_ for (c_, o_, v_) in st_.where], [label(p_) for p_ in (ps_ or [])])
+                if not has_row:
+                    return None
+                cols = st_.columns if st_.columns != ["*"] else ["_id"] + list(row)
+                return ("list", [row.get(c_.strip(), ("ext", "col:" + c_.strip(), [])) for c_ in cols])
+
+            def fo(itp, recv, a, k, env, d, e):
+                r_ = answer()
+                return r_ if r_ is not None else C_NONE
+
+            def fa(itp, recv, a, k, env, d, e):
+                r_ = answer()
+                return ("list", [r_]) if r_ is not None else ("list", [])
+            it.hooks.update({"ext:*.fetchone": fo, "anymethod:fetchone": fo, "ext:*.fetchall": fa, "anymethod:fetchall": fa})
+            try:
+                res["ret"] = it.call_function(fn, cls, store, [who, key], {}, depth=0)
+            except _Raise as r:
+                res["raised"] = r.text
+            if res["select"] is None:
+                answer()
+            out["asks"].append(res)
+        return out, it
+    try:
+        cells = enumerate_cells(run, {}, max_cells=64)
+    except (Budget, NeedAtom, DomainGrew) as x:
+        ctx.undecided("C17.trust", w, "identity store history", "could not be executed: %s" % (x,))
+        return
+    bad_store, bad = [], {}
+    n = 0
+    for cell, out in cells:
+        ins = out["insert"]
+        if ins is None or ins[0] != "ok":
+            bad_store.append("saveIdentity does not issue one INSERT with bound values (%s)" % (ins,))
+            continue
+        _ok, table, row = ins
+        vals = {c_: label(v_) for c_, v_ in row.items()}
+        if "R1" not in vals.values() or not any(v_ and "K1" in v_ for v_ in vals.values()):
+            bad_store.append("the INSERT binds %s: the pin must carry the recipient and a serialisation of the key" % vals)
+        for a in out["asks"]:
+            n += 1
+            case = "(%s, %s)%s" % (a["who"], a["key"], "" if a["row"] else " unknown recipient")
+            sel = a["select"]
+            if sel is None or sel[0] != table or sel[3] != [a["who"]] or len(sel[2]) != 1 or vals.get(sel[2][0]) != "R1":
+                bad.setdefault(case, []).append("the lookup is not a SELECT on %s keyed by the recipient asked about (%s)" % (table, sel))
+                continue
+            if a["raised"]:
+                bad.setdefault(case, []).append("raises %s" % a["raised"][:50])
+                continue
+            r = a["ret"]
+            got = r[1] if isinstance(r, tuple) and r[0] == "c" else None
+            if not isinstance(got, bool) or got != a["want"]:
+                why = {(True, True): "the pinned key is not recognised (stored as %s, compared in another form)" % sorted(v_ for v_ in vals.values() if v_ and "K1" in v_),
+                       (True, False): "a DIFFERENT key is accepted for a recipient whose key is pinned",
+                       (False, True): "a recipient without a pin is not trusted on first contact"}[(a["row"], a["want"])]
+                bad.setdefault(case, []).append("%s: returns %s" % (why, show_v(r) if r is not None else None))
+    ctx.check("C17.trust", not bad_store, ws, "saveIdentity pins (recipient, serialised key)", "; ".join(sorted(set(bad_store))[:2]), "one INSERT binding the recipient and a serialisation of the key")
+    for case in ("(R1, K1)", "(R1, K2)", "(R2, K1) unknown recipient"):
+        what = {"(R1, K1)": "the pinned key is trusted", "(R1, K2)": "another key for a pinned recipient is refused", "(R2, K1) unknown recipient": "an unknown recipient is trusted (first use)"}[case]
+        if bad_store:
+            continue
+        ctx.check("C17.trust", case not in bad, w, what, "; ".join(sorted(set(bad.get(case, [])))[:2]), "decided by the stored key of that recipient (%d path class(es))" % len(cells))
 
 
 def autotrust_test(ctx, m, cls, fn, test_expr, autotrust_params):
